@@ -94,6 +94,11 @@ func (p *parser) template() (*Template, error) {
 		if verbIdx := strings.LastIndex(last.literal, ":"); verbIdx != -1 {
 			tmpl.verb = last.literal[verbIdx+1:]
 			last.literal = last.literal[:verbIdx]
+
+			// only the root template may consist of an empty literal: "/a/:v" is "/a/" with a verb
+			if last.literal == "" && len(segments) > 1 {
+				return nil, p.error()
+			}
 		}
 	} else if last.typ == segmentVariable && p.left[0] != eof {
 		// additionally allow a verb
